@@ -40,7 +40,7 @@ func newEnv(mapSize int64) (*lmdb.Env, string) {
 	if err != nil {
 		panic(err)
 	}
-	opt := lmdbenv.Options{Create: true, MaxDBs: 64, EnvFlags: lmdb.NoSync | lmdb.NoMetaSync}
+	opt := lmdbenv.Options{Create: true, MaxDBs: 64, EnvFlags: envFlags()}
 	if mapSize > 0 {
 		opt.MapSize = 0
 		opt.MapSize.UnmarshalText([]byte(fmt.Sprintf("%dB", mapSize)))
@@ -122,4 +122,11 @@ func isBadValSize(err error) bool {
 		return e.Errno == lmdb.BadValSize
 	}
 	return lmdb.IsErrno(err, lmdb.BadValSize)
+}
+
+func envFlags() uint {
+	if os.Getenv("LSH_SYNC") != "" {
+		return 0
+	}
+	return lmdb.NoSync | lmdb.NoMetaSync
 }
